@@ -20,7 +20,7 @@ class C04(PoolScenario):
     prop = "C04"
     level = "exploration"
     profiles = ["checkpoint-replica"]
-    budgets = {"quick": 3000, "thorough": 50000}
+    budgets = {"quick": 10000, "thorough": 200000}
     wall_caps = {"quick": 110, "thorough": 1500}
     ops = {"new": 1, "fill": 8, "add": 3, "mul": 1.5, "copy": 1, "checkpoint": 4, "pair_op": 7, "torn": 0.5}
     rule = ("one run = a pool history of fills, +, * and copy on trees that place every primitive in every child / "
